@@ -5,7 +5,7 @@ CONSTANTS Cids = {1, 2, 3, 4, 5, 6, 7, 8, 9, 10}
           NProd = 3
           AsBuilt = {}
           Devs = @DEVS@
-INVARIANTS TypeOK TConverged TWantNeverUnsent TCancelNeverLeftActive NoHaveToLegacyPeer DevReport
+INVARIANTS TypeOK TConverged TWantNeverUnsent TCancelNeverLeftActive TSentListFaithful NoHaveToLegacyPeer DevReport
 CONSTRAINT TraceConstraint
 POSTCONDITION TracePost
 CHECK_DEADLOCK FALSE
